@@ -259,6 +259,25 @@ fn request_of(verb: &str, rqn: usize, dir: &str, n: usize) -> (Request, Kind, bo
             }
             (rt(RequestType::LoadState(path)), Kind::Load, false, n)
         }
+        "loadbad" => {
+            // n valid records, then one that is cut in the middle (no terminator): the
+            // parser stops there after the n requests have been scattered
+            let path = format!("{dir}/statebad{rqn}.json");
+            let mut f = std::fs::File::create(&path).unwrap();
+            for i in 0..n {
+                let wr = WorkerRequest {
+                    id: format!("SAVE-{i}"),
+                    content: rt(RequestType::AddCluster(Cluster {
+                        cluster_id: format!("lb{rqn}x{i}"),
+                        ..Default::default()
+                    })),
+                };
+                f.write_all(serde_json::to_string(&wr).unwrap().as_bytes()).unwrap();
+                f.write_all(b"\n\0").unwrap();
+            }
+            f.write_all(if rqn % 2 == 0 { b"{\"id\":\"SAVE-x\",\"content\":{\"request_ty" as &[u8] } else { b"\xff\xfegarbage\n\0" as &[u8] }).unwrap();
+            (rt(RequestType::LoadState(path)), Kind::Local, false, 0)
+        }
         "loadmissing" => (rt(RequestType::LoadState(format!("{dir}/nosuchfile"))), Kind::Local, false, 0),
         "reloadbad" => (rt(RequestType::ReloadConfiguration(format!("{dir}/nosuchconfig.toml"))), Kind::Local, false, 0),
         other => panic!("unknown verb {other}"),
